@@ -1713,6 +1713,22 @@ class MayRaise:
         for c in walk_no_nested(fi.node):
             if isinstance(c, ast.Call) and c.lineno < e.lineno and any(norm(a) == target for a in c.args) and self.exports_buffer(c, fi):
                 return c
+        # the resize sits in a helper method: a method of the same class hierarchy that exported the attribute and calls the helper
+        # afterwards (typically from an exception handler, while the reader over the buffer is still alive)
+        if fi.cls is not None and target.startswith("self."):
+            for cq in [fi.cls] + [k for k in self.m.classes if fi.cls in self.m.classes[k].mro] + list(self.m.classes[fi.cls].mro):
+                kc = self.m.classes.get(cq)
+                if kc is None:
+                    continue
+                for caller in kc.methods.values():
+                    if caller is fi or isinstance(caller.node, ast.Lambda):
+                        continue
+                    calls = [c for c in walk_no_nested(caller.node) if isinstance(c, ast.Call) and isinstance(c.func, ast.Attribute) and norm(c.func.value) == "self" and c.func.attr == fi.name]
+                    if not calls:
+                        continue
+                    for c in walk_no_nested(caller.node):
+                        if isinstance(c, ast.Call) and any(norm(a) == target for a in c.args) and self.exports_buffer(c, caller) and any(c.lineno < k_.lineno for k_ in calls):
+                            return c
         return None
 
     def format_ok(self, e: ast.Call, fi: FuncInfo) -> Tuple[bool, str]:
